@@ -38,7 +38,8 @@ MODELLED = {
             "geoh5py/shared/entity.py": ["Entity.parent", "Entity.__init__"]},
     "C02": {WR: ["H5Writer.write_entity", "H5Writer.write_to_parent", "H5Writer.write_entity_type", "H5Writer.add_or_update_property_group"],
             WSP: ["Workspace.close", "Workspace.remove_none_referents"]},
-    "C03": {WR: ["H5Writer.update_field", "H5Writer.write_attributes"], WSP: ["Workspace.update_attribute"]},
+    "C03": {WR: ["H5Writer.update_field", "H5Writer.write_attributes"], WSP: ["Workspace.update_attribute"],
+            CONC: ["Concatenator.update_concatenated_attributes"]},
     "C04": {CONC: ["Concatenator.fetch_index", "Concatenator.delete_index_data", "Concatenator.fetch_start_index",
                    "Concatenator.update_array_attribute", "Concatenator.fetch_values", "Concatenator.get_concatenated_attributes",
                    "Concatenator.update_concatenated_attributes", "Concatenator.remove_entity", "Concatenator.remove_children",
